@@ -91,6 +91,10 @@ def out(fn, *args):
         return 'ERecursionError'
     except Exception as e:  # noqa
         return 'E' + core.exc_class(e) + ':' + type(e).__name__
+    if callable(v):
+        # a helper that returns a predicate (criteria): compare the predicates by their answers on a fixed probe
+        probe = [0, 1, 5, 2.5, -3, 'apple', 'Apple', 'a*c', 'abc', '5', '', None, True, False, datetime.datetime(2024, 2, 29), '2024-02-29', 'x5']
+        return 'Xcallable:' + ','.join(out(v, x)[:12] for x in probe)
     try:
         return core.enc(v)
     except core.Unencodable:
